@@ -622,6 +622,7 @@ func report(o *Options, w *World, prop string, seed int, all []*Obligation, repo
 	sort.Strings(inl)
 	sort.Strings(asm)
 	sort.Strings(hav)
+	conformance.relate(o, asm)
 	scan := map[string]int{}
 	for _, sf := range w.Specs {
 		for k, v := range sf.Tokens {
